@@ -164,3 +164,108 @@ Lemma cube_corners c t :
   [(-(1/2), -(1/2), -(1/2)); (1/2, -(1/2), -(1/2)); (1/2, 1/2, -(1/2)); (-(1/2), 1/2, -(1/2));
    (-(1/2), -(1/2), 1/2); (1/2, -(1/2), 1/2); (1/2, 1/2, 1/2); (-(1/2), 1/2, 1/2)].
 Proof. reflexivity. Qed.
+
+(* ------------------------------------------------------------------ ring: every vertex but the apex lies on the unit circle
+   of the plane z = 0 (the apex, found by bisection and written over vertex 0 afterwards, is a parameter here) *)
+Definition on_unit_circle (p : vec R) : Prop := vx p * vx p + vy p * vy p = 1 /\ vz p = 0.
+
+Lemma ring_rim_on_circle N d o k (apex : vec R) :
+  exists rim, ring_coords Rops N d o k apex = apex :: rim /\ Forall on_unit_circle rim.
+Proof.
+  unfold ring_coords. cbn [app]. unfold vset. cbn [Z.to_nat vset_nat]. eexists. split; [reflexivity|].
+  assert (H1 : on_unit_circle (oofZ Rops 1, oofZ Rops 0, oofZ Rops 0)).
+  { unfold on_unit_circle, vx, vy, vz. cbn. split; ring. }
+  constructor; [exact H1|]. apply Forall_app. split.
+  - apply Forall_forall. intros p Hp. apply in_flat_map in Hp as [i [_ Hp]]. destruct Hp as [<-|[]].
+    unfold on_unit_circle, vx, vy, vz. cbn [fst snd ocos osin oofZ Rops]. split; [|reflexivity].
+    pose proof (cs2 (odiv Rops (omul Rops (IZR (2 * i)) (opi Rops)) (IZR N))) as H. cbn [odiv omul opi Rops] in *. lra.
+  - destruct o; constructor; [exact H1 | constructor].
+Qed.
+
+(* ------------------------------------------------------------------ cylinder *)
+Definition dot3 (a b : vec R) : R := vx a * vx b + vy a * vy b + vz a * vz b.
+
+Lemma vdot_R a b : vdot Rops a b = dot3 a b.
+Proof. reflexivity. Qed.
+
+(* normalising a non-zero vector gives a unit vector *)
+Lemma vnormalized_unit_norm (a : vec R) : 0 < dot3 a a -> dot3 (vnormalized Rops a) (vnormalized Rops a) = 1.
+Proof.
+  intros H. destruct a as [[x y] z]. unfold vnormalized, vdivs, vnorm, vdot, dot3, vx, vy, vz in *. cbn [fst snd osqrt oadd omul odiv Rops] in *.
+  set (q := x * x + y * y + z * z) in *. assert (Hs : R_sqrt.sqrt q * R_sqrt.sqrt q = q) by (apply sqrt_sqrt; lra).
+  assert (Hn : R_sqrt.sqrt q <> 0) by (intros E; rewrite E in Hs; lra).
+  set (n := R_sqrt.sqrt q) in *. unfold q in Hs.
+  assert (Hi : / n * n = 1) by (field; auto). unfold Rdiv. set (inv := / n) in *. clearbody inv. clearbody n. nsatz.
+Qed.
+Lemma vnormalized_dot (a b : vec R) : dot3 a b = 0 -> dot3 (vnormalized Rops a) b = 0.
+Proof.
+  intros H. destruct a as [[x y] z], b as [[p q] r]. unfold vnormalized, vdivs, vnorm, vdot, dot3, vx, vy, vz in *.
+  cbn [fst snd osqrt oadd omul odiv Rops] in *. unfold Rdiv. set (inv := / _). clearbody inv. nsatz.
+Qed.
+Lemma vnormalized_id (a : vec R) : dot3 a a = 1 -> vnormalized Rops a = a.
+Proof.
+  intros H. destruct a as [[x y] z]. unfold vnormalized, vdivs, vnorm, vdot, dot3, vx, vy, vz in *.
+  cbn [fst snd osqrt oadd omul odiv Rops] in *. rewrite H, sqrt_1. repeat f_equal; field.
+Qed.
+
+(* Rodrigues' rotation of a unit vector t orthogonal to the unit axis a stays a unit vector orthogonal to a *)
+Lemma rotate_unit_orth (t a : vec R) (ang : R) :
+  dot3 a a = 1 -> dot3 t t = 1 -> dot3 a t = 0 ->
+  let q := rotate_around_axis Rops t a ang in dot3 q q = 1 /\ dot3 q a = 0.
+Proof.
+  intros Ha Ht Hat. cbv zeta. unfold rotate_around_axis. rewrite (vnormalized_id a Ha). cbv zeta.
+  destruct a as [[u v] w], t as [[x y] z]. unfold dot3, vx, vy, vz in *. cbn [fst snd oadd osub omul oofZ ocos osin Rops] in *.
+  pose proof (cs2 ang) as Hcs. set (c := cos ang) in *. set (s := sin ang) in *. clearbody c s.
+  split; nsatz.
+Qed.
+
+Lemma sqrt_small (x e : R) : 0 <= x -> 0 < e -> R_sqrt.sqrt x < e -> x < e * e.
+Proof.
+  intros Hx He H. destruct (Rlt_le_dec x (e * e)) as [L|L]; auto. exfalso.
+  assert (R_sqrt.sqrt (e * e) <= R_sqrt.sqrt x) by (apply sqrt_le_1_alt; exact L).
+  rewrite sqrt_square in H0 by lra. lra.
+Qed.
+
+Lemma dot3_comm a b : dot3 a b = dot3 b a.
+Proof. unfold dot3. ring. Qed.
+
+(* cylinder: every ring vertex lies in the end plane through P1 (resp. P2) at distance `radius` from the axis;
+   the cap centres are P1 and P2 *)
+Lemma cylinder_on_surface (P1 P2 : vec R) (radius : R) N caps :
+  0 < dot3 (vsub Rops P2 P1) (vsub Rops P2 P1) ->
+  let a := vnormalized Rops (vsub Rops P2 P1) in
+  exists ringpts, cylinder_coords Rops P1 P2 radius N caps = ringpts ++ (if caps then [P1; P2] else []) /\
+    Forall (fun p => exists P, (P = P1 \/ P = P2) /\ dot3 (vsub Rops p P) a = 0 /\ dist2 p P = radius * radius) ringpts.
+Proof.
+  intros Hd. cbv zeta. unfold cylinder_coords. cbv zeta.
+  set (a := vnormalized Rops (vsub Rops P2 P1)).
+  assert (Ha : dot3 a a = 1) by (apply vnormalized_unit_norm; exact Hd).
+  set (t0 := (vy a, oopp Rops (vx a), oofZ Rops 0)).
+  set (t' := if oltb Rops (vnorm Rops t0) (odiv Rops (oofZ Rops 1) (oofZ Rops 1000000))
+             then (oofZ Rops 0, vz a, oopp Rops (vy a)) else t0).
+  assert (Ht' : 0 < dot3 t' t' /\ dot3 t' a = 0).
+  { destruct a as [[u v] w]. unfold dot3, vx, vy, vz in Ha. cbn [fst snd] in Ha.
+    unfold t', t0, vnorm, vdot, vx, vy, vz. cbn [fst snd oltb osqrt oadd omul odiv oopp oofZ Rops].
+    destruct (Rlt_dec _ _) as [L|L].
+    - apply sqrt_small in L; [|nra|lra]. unfold dot3, vx, vy, vz. cbn [fst snd]. split; [nra|ring].
+    - unfold dot3, vx, vy, vz. cbn [fst snd]. split; [|ring].
+      destruct (Rle_lt_dec (v * v + - u * - u + 0 * 0) 0) as [Z|Z]; [|nra]. exfalso. apply L.
+      replace (v * v + - u * - u + 0 * 0) with 0 by nra. rewrite sqrt_0. lra. }
+  destruct Ht' as [Ht1 Ht2].
+  set (t := vnormalized Rops t').
+  assert (Htt : dot3 t t = 1) by (apply vnormalized_unit_norm; exact Ht1).
+  assert (Hat : dot3 a t = 0) by (rewrite dot3_comm; apply vnormalized_dot; exact Ht2).
+  eexists. split; [reflexivity|].
+  apply Forall_forall. intros p Hp. apply in_flat_map in Hp as [k [Hk Hp]]. apply In_zrange in Hk. cbv zeta in Hp.
+  apply in_flat_map in Hp as [i [_ Hp]]. cbv zeta in Hp. destruct Hp as [<-|[]].
+  set (ang := odiv Rops _ _).
+  destruct (rotate_unit_orth t a ang Ha Htt Hat) as [Hq1 Hq2]. set (q := rotate_around_axis Rops t a ang) in *.
+  clearbody q.
+  assert (HP : vsel Rops k [P1; P2] = P1 \/ vsel Rops k [P1; P2] = P2).
+  { assert (k = 0 \/ k = 1)%Z as [-> | ->] by lia; [left|right]; reflexivity. }
+  set (P := vsel Rops k [P1; P2]) in *. clearbody P. exists P. split; [exact HP|].
+  clear - Hq1 Hq2. clearbody a.
+  destruct P as [[px py] pz], q as [[qx qy] qz], a as [[u v] w].
+  unfold dot3, dist2, vsub, vadd, vscale, vx, vy, vz in *. cbn [fst snd oadd osub omul Rops] in *.
+  split; nsatz.
+Qed.
